@@ -66,11 +66,21 @@ Definition own_counts (sc : schema) (root : N) : list N :=
 
 Definition sum_counts (l : list N) : N := fold_left N.add l 0.
 
-(* WireSchema.Compatible as coded: lengths first, then the SUMS of the field counts *)
+(* WireSchema.Compatible as coded: lengths first, then the SUMS of the field counts; with equal
+   sums the counts must be equal one by one (diverged schemas are refused) *)
+Fixpoint counts_eqb (a b : list N) : bool :=
+  match a, b with
+  | [], [] => true
+  | x :: a', y :: b' => (x =? y) && counts_eqb a' b'
+  | _, _ => false
+  end.
+
 Definition compatible (own other : list N) : bool :=
   if (length other <? length own)%nat then true
   else if (length own <? length other)%nat then false
-  else sum_counts other <=? sum_counts own.
+  else if sum_counts other <? sum_counts own then true
+  else if sum_counts own <? sum_counts other then false
+  else counts_eqb own other.
 
 Inductive read_result :=
 | RdRecord (r : reader) (w : wire)
